@@ -99,9 +99,9 @@ def ClientVerb.classify (answers : Bool) : ClientVerb → Verb
   | .metricDetailBad => .workerBad
   | .loadCorrupt => .loadCorrupt
   | .reload k => .reload k
-  -- the handler panics (`unwrap_or_else(|_| panic!(…))`): the driver ends the
-  -- main process there; as a verb it is never answered
-  | .reloadBad => .noAnswer
+  -- answered with a failure, the task created before is cancelled (before the
+  -- repair the handler panicked on the client-supplied path: `crashedMain`)
+  | .reloadBad => .reloadRefused
   | .bad => .workerBad
   | .query | .status | .metrics => .query
   | .hardStop => .hardStop
@@ -111,8 +111,10 @@ def ClientVerb.classify (answers : Bool) : ClientVerb → Verb
   | .list => .localOk
   | .none | .launchWorker | .returnListenSockets => if answers then .workerBad else .noAnswer
 
-/-- the request loads a client-supplied path with `unwrap_or_else(panic!)`: the main process dies -/
-def ClientVerb.crashesMain : ClientVerb → Bool
+/-- BEFORE the repair (`Consts.hubReloadBadPathPanics`) the request loaded a
+    client-supplied path with `unwrap_or_else(panic!)` and the main process died;
+    the driver still plays that when the translator finds the panic back -/
+def ClientVerb.crashedMain : ClientVerb → Bool
   | .reloadBad => true
   | _ => false
 
